@@ -58,6 +58,8 @@ var (
 
 	// ErrSymbolContainsDot symbol contains .
 	ErrSymbolContainsDot = errors.New("symbol contains '.'")
+	// ErrInvalidValue the zero reflect.Value cannot be bound to a symbol
+	ErrInvalidValue = errors.New("invalid reflect.Value")
 )
 
 // NewEnv creates new global scope.
